@@ -752,6 +752,13 @@ func TestVerifC18(t *testing.T) {
 				rep.Disagree(vfDisagreement{Component: "wire", Ops: append(append([]string(nil), ops[:pre]...), k.opLine()),
 					Impl: []string{o.events}, Model: []string{want, "raw:" + model[pre+ci]}, At: pre, Note: k.String() + " store=" + storeText})
 			}
+			// a command for which rqlite defines no permission must at least not change state for a
+			// caller who presents nothing to a node that has a credential store
+			if k.cmd.need == nil && sp.with && !k.pres.creds && strings.Contains(o.events, "action:send:") {
+				rep.Fail("cluster:"+k.cmd.name+":state-changing-command-has-no-permission-check",
+					fmt.Sprintf("%v against store %s: no credentials presented, the node has a credential store, yet it did %s", k, storeText, o.events),
+					map[string]interface{}{"store": storeText, "case": k.String(), "observed_events": o.events})
+			}
 			// the property itself on the observed bytes
 			if k.cmd.need != nil {
 				authorised := true
